@@ -214,6 +214,13 @@ def run(ctx):
         idn = devices.random_identity(rng, vend_ids, type_ids)
         d = {"vendor": rng.choice(vnames), "product_type": rng.choice(tnames), "product_code": idn.product_code,
              "revision": {"major": idn.major, "minor": idn.minor}, "status": idn.status, "serial": f"{idn.serial:08x}", "product_name": idn.name}
+        if rng.random() < 0.5:
+            # an identity is a mapping: the order in which the caller happened to build it says nothing (hand-made, sorted, merged dicts)
+            ks = list(d)
+            rng.shuffle(ks)
+            d = {k: d[k] for k in ks}
+            if rng.random() < 0.5:
+                d["revision"] = {"minor": idn.minor, "major": idn.major}
         res.ev()
         res.seen("roundtrip", d["serial"][:1], min(len(idn.name), 40))
         try:
